@@ -197,17 +197,18 @@ def find_certain_losers(surplus: 'val', exclude: 'abs:Candidate|list0' = ()) -> 
     modifies()
 
 
-@contract('droop.rules.mpls.Rule.count', props=['C01', 'C09'], site_props=['C02', 'C04', 'C06', 'C07'])
+@contract('droop.rules.mpls.Rule.count', props=['C01', 'C09'], site_props=['C02', 'C04', 'C06', 'C07'], ledger=True)
 def mpls_count(self: 'MplsRule'):
     E = self.E
     requires(count_entry(E))
+    requires(ledger_entry(E))
     ensures(ghost('nH') == 0, name='every candidate is decided: nobody is left hopeful')
     ensures(ghost('nP') == 0, name='no transfer is left pending')
     ensures(ghost('nW') == old(ghost('nW')), name='withdrawn candidates never change')
     modifies_all(Candidate, 'state', 'pending', 'vote')
     modifies_all(Ballot, 'index', 'weight')
     modifies(E, 'quota', 'exhausted', 'round', 'surplus')
-    modifies_ghost('nH', 'nE', 'nD', 'nP', 'nlog', 'lasttag', 'lastmsg')
+    modifies_ghost('nH', 'nE', 'nD', 'nP', 'nlog', 'lasttag', 'lastmsg', 'T', 'G', 'Tm')
 
 
 @loops('droop.rules.mpls.Rule.count', anchor='while#1')
@@ -219,6 +220,10 @@ def mpls_main_loop(self):
     invariant(forall('ref:droop.candidate.Candidate',
                      lambda c: implies(and_(in_election(c), c.state == 'elected', not_(truthy(c.pending))), c.vote == E.quota)),
               props=['C06'])      # a candidate whose surplus has been transferred keeps exactly the quota
+    invariant(ghost('nP') == 0)       # Minneapolis never leaves a transfer pending
+    invariant(implies(ledger_on(), ledger_total(E)), props=['C02'])
+    invariant(implies(ledger_on(), ledger_piles(E)), props=['C02', 'C06'])
+    invariant(implies(ledger_on(), ledger_nonneg(E)), props=['C02'])
     variant(ghost('nH'))
 
 
